@@ -39,7 +39,8 @@ def run(ctx):
         "the four model programs (calls two deep, nested blocks, if/else-if/else chains, bare return, error inside a callee, "
         "functional subroutines called from expressions) stand for the statement kinds that touch the DebugState plumbing",
         "stops are identified by the line of the top stack frame and the number of log lines printed before the stop",
-        "only the DAP front end is driven; the TUI front end (debugger/debugger.go) has the same Run logic but is not executed",
+        "the terminal front end is driven in-process on a tcell simulation screen (hook H2); a stop is recognised from the "
+        "goroutine dump (channel receive inside breakPoint), a freeze from one dump showing both goroutines of the cycle",
     ]
     # 1. invariants on the model
     inv = ctx.tlc("Stepper", cfg="Stepper.cfg", defines={"MaxStops": "3" if quick else "4", "MaxBps": "1" if quick else "2"},
@@ -107,5 +108,68 @@ def run(ctx):
     if seen_canary != len(can):
         ctx.defer_fault("canaries executed: %d of %d" % (seen_canary, len(can)))
     ctx.notes["departure_items_seen"] = dict(classes)
+
+    # 3. the terminal front end: the same behaviours through debugger.New + a simulation screen (hook H2)
+    from concurrent.futures import ThreadPoolExecutor
+    tsel = [b for b in sel if len(b["stops"]) >= 1]
+    ctx.rng.shuffle(tsel)
+    tsel = tsel[:240 if quick else 1500]
+    tcan = [dict(b, canary="stop") for b in tsel if len(b["stops"]) >= 2][:1]
+    shards = min(8, ctx.workers)
+    def tui_shard(i):
+        part = tsel[i::shards] + (tcan if i == 0 else [])
+        pth = os.path.join(ctx.work, "tui_in_%d.jsonl" % i)
+        with open(pth, "w") as f:
+            for b in part:
+                f.write(json.dumps(b) + "\n")
+        d = os.path.join(ctx.work, "tui_vcl_%d" % i)
+        os.makedirs(d, exist_ok=True)
+        return ctx.harness("vhx01", ["tui", "-programs", pj, "-dir", d], stdin_path=pth, timeout=3000, out_name="tui_out_%d.jsonl" % i)
+    ctx.build_bin("vhx01")
+    with ThreadPoolExecutor(max_workers=shards) as ex:
+        outs = list(ex.map(tui_shard, range(shards)))
+    tseen, tn = 0, 0
+    for o in outs:
+        for r in ctx.read_results(o):
+            if r["id"].startswith("canary-"):
+                tseen += 1
+                if not any(m.get("dev") == "unclassified" for m in r.get("mismatch", [])):
+                    ctx.defer_fault("canary accepted: %s" % r["id"])
+                continue
+            tn += 1
+            ctx.add_result(r)
+    if tseen != len(tcan):
+        ctx.defer_fault("tui canaries executed: %d of %d" % (tseen, len(tcan)))
+    ctx.notes["tui_replayed"] = tn
+
+    # 4. the key-handling protocol of the terminal front end (spec/TuiLoop.tla)
+    kt = ctx.tlc("TuiLoop", cfg="TuiLoop.cfg", timeout=600, tag="keys")
+    if kt.violated:
+        raise MachineryFault("TuiLoop.tla: invariant violated on the model: %s (a lead only; see %s)" % (kt.violated, kt.out_path))
+    allowed = collections.defaultdict(set)
+    for l in open(kt.beh_path):
+        b = json.loads(l)
+        allowed[(b["S"], b["K"])].add(b["outcome"])
+    if allowed.get((1, 1)) != {"completes"} or "frozen" not in allowed.get((1, 2), set()):
+        raise MachineryFault("TuiLoop.tla outcomes unexpected: %s" % dict(allowed))
+    kin = os.path.join(ctx.work, "keys.jsonl")
+    with open(kin, "w") as f:
+        for (S, K), a in sorted(allowed.items()):
+            f.write(json.dumps({"S": S, "K": K, "allowed": sorted(a), "reps": 2 if quick else 8}) + "\n")
+        f.write(json.dumps({"S": 1, "K": 1, "allowed": ["completes"], "reps": 1, "canary": True}) + "\n")
+    kd = os.path.join(ctx.work, "keys_vcl")
+    kout = ctx.harness("vhx01", ["keys", "-programs", pj, "-dir", kd], stdin_path=kin, timeout=1500, out_name="keys_out.jsonl")
+    kseen, outcomes = 0, collections.Counter()
+    for r in ctx.read_results(kout):
+        if r["id"].startswith("canary-"):
+            kseen += 1
+            if not any(m.get("dev") == "unclassified" for m in r.get("mismatch", [])):
+                ctx.defer_fault("canary accepted: %s" % r["id"])
+            continue
+        outcomes["S%d K%d %s" % (r["input"]["S"], r["input"]["K"], r["observed"]["outcome"])] += 1
+        ctx.add_result(r)
+    if kseen != 1:
+        ctx.defer_fault("key-protocol canary not executed")
+    ctx.notes["key_protocol_outcomes"] = dict(outcomes)
     ctx.exhaustive = {"model": "Stepper.tla invariants exhaustive at MaxStops=%s MaxBps=%s; replay is a stratified sample" %
                       (("3", "1") if quick else ("4", "2"))}
